@@ -573,8 +573,12 @@ func runSignal(rng *rand.Rand, s *descriptor.Signal, nraw, nphys, npairs int, ex
 	}
 }
 
-func c09(perLen, nraw, nphys, npairs, exhMax int, exh16 bool) {
+func c09(perLen, nraw, nphys, npairs, exhMax int, exh16, witness bool) {
 	rng := rand.New(rand.NewSource(seed))
+	if witness {
+		// corpus: the witness of known finding C09-physical-roundtrip-truncation, always first
+		emitFP(&descriptor.Signal{Name: "K", Length: 16, Scale: 0.1, Offset: -40}, -39.6)
+	}
 	// the documented example of the property text first: 0.1-scaled unsigned 16-bit, exhaustive
 	runSignal(rng, &descriptor.Signal{Name: "E", Length: 16, Scale: 0.1}, 0, nphys, npairs, true)
 	if exh16 {
@@ -652,7 +656,7 @@ func main() {
 		coldStep = arg(4, 1)
 		c08(arg(3, 2))
 	case "c09":
-		c09(arg(3, 5), arg(4, 8), arg(5, 8), arg(6, 20), arg(7, 10), arg(8, 0) != 0)
+		c09(arg(3, 5), arg(4, 8), arg(5, 8), arg(6, 20), arg(7, 10), arg(8, 0) != 0, arg(9, 0) != 0)
 	default:
 		os.Exit(2)
 	}
